@@ -68,6 +68,19 @@ def _canonical_case(names):
             same_structure(E, 'canonical.grouped', grouped.hill.structure, href.structure)
             split = formulas.formula([(counts[0] / 2, atoms[0])] + pairs[1:] + [(counts[0] / 2, atoms[0])])
             same_structure(E, 'canonical.split', split.hill.structure, href.structure)
+        # Hill form follows the formula through later operations
+        w = formulas.formula(pairs[:2])
+        _ = w.hill
+        n = E.real('n', lo=0, lo_open=True, hi=1000, sample=4.5)
+        nw = n * w
+        for a, c in nw.atoms.items():
+            E.eq('hill_after_rmul.atoms[%s]' % a, nw.hill.atoms[a], c)
+        w += formulas.formula(pairs[2:])
+        hw = w.hill
+        E.fact('hill_after_iadd.atom_set', set(hw.atoms) == set(w.atoms))
+        for a, c in w.atoms.items():
+            if a in hw.atoms:
+                E.eq('hill_after_iadd.atoms[%s]' % a, hw.atoms[a], c)
         summed = formulas.formula(pairs[:1]) + formulas.formula(pairs[1:])
         same_structure(E, 'canonical.sum', summed.hill.structure, href.structure)
     return h
